@@ -7,8 +7,8 @@ Line protocol of the decoder model (`parser …`). Byte strings are lower-case h
   with `<L>` = `-` or `,`-separated `name:value:type:<0|1>` (hex fields), sorted by column name (bytewise).
 * `parser render <change>` → hex of `TestDecoding.render`.
 * `parser renderck <hex> <change>` → `same` | `differ:<hex of render>` (keeps the Go generator's encoder equal to `render`).
-* `parser expect <change>` → the dump of `ok (view m)`; `parser expectf4 <change>` → the dump of `ok (viewF4 m)`.
-* `parser wf <change>` → `wf=<0|1> nobits=<0|1>`.
+* `parser expect <change>` → the dump of `ok (view m)`.
+* `parser wf <change>` → `wf=<0|1>`.
 
 `<change>` (structured): `begin <xid>` | `commit <xid>` | `insert <rel> <tup>` | `update <rel> <tup:old> <tup:new>` |
 `delete <rel> <tup>` | `truncate <0|1 restart_seqs> <0|1 cascade> <rels>`; `<rel>` = `<hex>.<hex>`; `<rels>` = `-` or
@@ -115,13 +115,9 @@ def handle (st : DState) (args : List String) : DState × String :=
     match parseChange ch with
     | some m => (st, dumpRes (view m))
     | none => (st, "bad-op")
-  | "expectf4" :: ch =>
-    match parseChange ch with
-    | some m => (st, dumpRes (viewF4 m))
-    | none => (st, "bad-op")
   | "wf" :: ch =>
     match parseChange ch with
-    | some m => (st, s!"wf={b01 (wf m)} nobits={b01 (noBits m)}")
+    | some m => (st, s!"wf={b01 (wf m)}")
     | none => (st, "bad-op")
   | _ => (st, "bad-op")
 
